@@ -9,7 +9,7 @@ from util import call, quiet
 
 REQUIRED_THEOREMS = ['Usid.C09.change_count', 'Usid.C09.counts_strict', 'Usid.C09.sizes',
                      'Usid.C09.order_is_rate', 'Usid.C09.unit_values', 'Usid.C09.rebuild_indices']
-RULE = ('regular grids of 1-4 dimensions, sizes 1-5 (biased to 1, equal sizes), every/random storage permutation, '
+RULE = ('regular grids of 1-4 dimensions, sizes 1-5 (biased to 1, equal sizes; a fifth with a dimension whose reference values are not distinct), every/random storage permutation, '
         'position- and spectroscopic-shaped, INCLUDING as many or more dimensions than points; get_sort_order, '
         'get_dimensionality, get_unit_values (is_spec given, and None where the shape is unambiguous), '
         'create_spec_inds_from_vals, and the USIDataset accessors get_pos_values / get_spec_values / *_dim_sizes; '
@@ -32,7 +32,7 @@ def generate(seed, tier):
         n_rand = {'quick': 250, 'search': 1500}[tier]
     for i in range(n_rand):
         rng = derived_rng(seed, 'C09', i)
-        side = gen.gen_side(rng, 'D', max_dims=4, max_size=5, long_prob=0.12)
+        side = gen.gen_side(rng, 'D', max_dims=4, max_size=5, long_prob=0.12, dup_prob=0.2)
         if i % 9 == 8:                         # as many or more dimensions than points
             k = rng.randint(2, 4)
             sizes = rng.choice([[1] * k, [1] * (k - 1) + [2], [2] + [1] * (k - 1)])
@@ -143,7 +143,8 @@ def oracle(inp, obs):
     if obs['unambiguous'] and obs['uv_auto'] != ref:
         fails.append('unit-values-auto: get_unit_values(is_spec=None) returned %s on an unambiguous shape' % (obs['uv_auto'],))
     want_inds = gen.index_matrix(sizes, rate).T.tolist()
-    if obs['rebuild'] != want_inds:
+    distinct = all(len(set(v)) == len(v) for v in side['values'])
+    if distinct and obs['rebuild'] != want_inds:     # indices can be re-derived from values only when these are distinct
         fails.append('rebuild-%s: create_spec_inds_from_vals does not reproduce the indices (sizes %s rate %s)'
                      % (tag, sizes, rate))
     w = obs['wrapper']
